@@ -80,13 +80,36 @@ package snowflake_server
 //
 // The carrier handler registers this carrier's ClientID with this request's sanitised client_ip.
 //@ func turbotunnelMode(conn net.Conn, addr net.Addr, pconn *turbotunnel.QueuePacketConn) (err error)
-//@   props C18
-//@   requires addr != nil
+//@   props C18, C05
+//@   requires addr != nil && conn != nil
+//@   assumes pconn != nil
 //@   flag nosafety
 //@   at call Set assert {registers-this-request-address} arg2 == addr
 //@   at call Set assert {registers-the-id-just-read} arg1 == clientID
 //
 //@ func (handler *httpHandler) ServeHTTP(w http.ResponseWriter, r *http.Request)
-//@   props C18
+//@   props C18, C05
 //@   flag nosafety
+//@   at entry ghost tokenOK = false
+//@   after call Equal ghost tokenOK = ret0
+//@   at call turbotunnelMode assert {token-gate} tokenOK && arg2 == handler.pconn
+//@   ensures {no-session-without-token} calls(turbotunnelMode) >= 1 ==> tokenOK
+//@   ensures {carrier-always-closed} calls(New) == 1 ==> calls(Close) == 1
 //@   at call turbotunnelMode assert {address-is-sanitised-client-ip} arg1 == addr && calls(clientAddr) == 1
+//
+// C05: packets are bound to sessions by the ClientID this carrier presented.
+//@ ghost var tokenOK bool
+//
+//@ func turbotunnelMode$1()
+//@   props C05
+//@   flag nosafety
+//@   requires conn != nil && pconn != nil
+//@   loop 1 invariant true
+//@   at call QueueIncoming assert {upstream-attributed-to-this-carriers-client-id} unbox(arg2, turbotunnel.ClientID) == clientID && arg0 == pconn
+//
+//@ func turbotunnelMode$2()
+//@   props C05
+//@   flag nosafety
+//@   requires pconn != nil
+//@   loop 1 invariant true
+//@   at call OutgoingQueue assert {downstream-taken-from-this-client-ids-queue} unbox(arg1, turbotunnel.ClientID) == clientID && arg0 == pconn
